@@ -599,7 +599,7 @@ impl Property for C16 {
     fn runs(&self, tier: Tier) -> u64 {
         match tier {
             Tier::Quick => 30_000,
-            Tier::Thorough => 1_500_000,
+            Tier::Thorough => 15_000_000,
         }
     }
 
